@@ -585,6 +585,25 @@ func Fsqrt(a *Term) *Term {
 	return mk("fsqrt", a.Sort, a)
 }
 
+// Fround is math.Floor / Ceil / Trunc / Round (mode "floor", "ceil", "trunc", "round").
+func Fround(mode string, a *Term) *Term {
+	if a.IsConst() {
+		var r float64
+		switch mode {
+		case "floor":
+			r = math.Floor(a.F)
+		case "ceil":
+			r = math.Ceil(a.F)
+		case "trunc":
+			r = math.Trunc(a.F)
+		default:
+			r = math.Round(a.F)
+		}
+		return FloatC(a.Sort, r)
+	}
+	return mk("f"+mode, a.Sort, a)
+}
+
 // Fmax / Fmin follow Go's math.Max / math.Min special cases.
 func Fmax(a, b *Term) *Term {
 	if a.IsConst() && b.IsConst() {
